@@ -153,6 +153,43 @@ def getter_cases(W, H):
     for x in xs:
         cases.append((f"get_column_cells[{x}]", mk_col_cells(x)))
 
+    # filtered getters: the cells of the right type / content, at their own coordinates, as copies
+    def is_num(v):
+        return isinstance(v, (int, float)) and not isinstance(v, bool)
+
+    def expected_positions(t, pred, x0=0, y0=0, x1=None, y1=None):
+        mat = TR.table_matrix(t._Element__element)
+        out = []
+        for y, row in enumerate(mat):
+            if y < y0 or (y1 is not None and y > y1):
+                continue
+            for x, v in enumerate(row):
+                if x < x0 or (x1 is not None and x > x1):
+                    continue
+                if pred(v):
+                    out.append((x, y))
+        return out
+
+    def filtered(name, call, pred, expanded=True, **area):
+        def f(t):
+            exp = expected_positions(t, pred, **area)
+            got = call(t)
+            flat = [c for row in got for c in row] if got and isinstance(got[0], list) else list(got)
+            if len(flat) != len(exp):
+                raise ValueError(f"{len(flat)} cells returned, {len(exp)} match the filter")
+            return [(c, "cell", x, y, expanded, True) for c, (x, y) in zip(flat, exp)]
+        return (name, f)
+
+    cases.append(filtered("get_cells(cell_type=float)", lambda t: t.get_cells(cell_type="float"), is_num))
+    cases.append(filtered("get_cells(cell_type=all)", lambda t: t.get_cells(cell_type="all"), lambda v: v is not None))
+    cases.append(filtered("get_cells((1,0,2,2),cell_type=float)", lambda t: t.get_cells((1, 0, 2, 2), cell_type="float"), is_num, x0=1, x1=2, y0=0, y1=2))
+    cases.append(filtered("get_cells(content='1')", lambda t: t.get_cells(content="1"), lambda v: v is not None and "1" in str(v)))
+    cases.append(filtered("get_cells(flat,cell_type=float)", lambda t: t.get_cells(cell_type="float", flat=True), is_num))
+    for x in xs[:3]:
+        cases.append(filtered(f"get_column_cells[{x}](cell_type=float)", (lambda xx: lambda t: t.get_column_cells(xx, cell_type="float"))(x), is_num, expanded=False, x0=x, x1=x))
+        cases.append(filtered(f"get_column_cells[{x}](cell_type=all)", (lambda xx: lambda t: t.get_column_cells(xx, cell_type="all"))(x), lambda v: v is not None, expanded=False, x0=x, x1=x))
+        cases.append(filtered(f"get_column_cells[{x}](content='1')", (lambda xx: lambda t: t.get_column_cells(xx, content="1"))(x), lambda v: v is not None and "1" in str(v), expanded=False, x0=x, x1=x))
+
     # Row getters on a row taken from the table (clone) -- the row is the container
     def mk_row_get_cell(y, x):
         def f(t):
@@ -176,6 +213,22 @@ def getter_cases(W, H):
         cases.append(mk_row_list(y, "cells", lambda r: r.cells, 0))
         cases.append(mk_row_list(y, "get_cells()", lambda r: r.get_cells(), 0))
         cases.append(mk_row_list(y, "get_cells((1,2))", lambda r: r.get_cells((1, 2)), 1))
+
+    def row_filtered(y, name, call, pred):
+        def f(t):
+            r = t.get_row(y)
+            mat = TR.table_matrix(t._Element__element)
+            row = mat[y] if y < len(mat) else []
+            exp = [x for x, v in enumerate(row) if pred(v)]
+            got = call(r)
+            if len(got) != len(exp):
+                raise ValueError(f"{len(got)} cells returned, {len(exp)} match the filter")
+            return [(c, "cell", x, y, True, True) for c, x in zip(got, exp)], r
+        return (f"Row[{y}].{name}", f)
+
+    for y in ys[:-1]:
+        cases.append(row_filtered(y, "get_cells(cell_type=float)", lambda r: r.get_cells(cell_type="float"), is_num))
+        cases.append(row_filtered(y, "get_cells(content='1')", lambda r: r.get_cells(content="1"), lambda v: v is not None and "1" in str(v)))
     return cases
 
 
